@@ -609,11 +609,11 @@ def check_case(ctx, case, collect=None):
                         y = jio.load_json_dict(os.path.join(d, 'f'), gz=case['gz'], verbose=False, reps='DICTOBS')
                     s = None
                 elif tr == 'string':
-                    s = jio.create_json_string(arg, indent=case['indent'])
-                    y = jio.import_json_string(s, verbose=False)
+                    s = jio.create_json_string(arg, indent=case['indent'], **({'description': case['desc']} if case.get('desc') is not None else {}))
+                    y = jio.import_json_string(s, verbose=False, full_output=bool(case.get('full')))
                 elif tr == 'file':
-                    jio.dump_to_json(arg, os.path.join(d, 'f'), indent=case['indent'], gz=case['gz'])
-                    y = jio.load_json(os.path.join(d, 'f'), gz=case['gz'], verbose=False)
+                    jio.dump_to_json(arg, os.path.join(d, 'f'), indent=case['indent'], gz=case['gz'], **({'description': case['desc']} if case.get('desc') is not None else {}))
+                    y = jio.load_json(os.path.join(d, 'f'), gz=case['gz'], verbose=False, full_output=bool(case.get('full')))
                     s = jio.create_json_string(arg, indent=case['indent'])
                 elif tr == 'pickle':
                     y = pickle.loads(pickle.dumps(x))
@@ -633,6 +633,18 @@ def check_case(ctx, case, collect=None):
                     if isinstance(x, np.ndarray):
                         ref = canon(list(x.ravel()))
                     s = None
+                if tr in ('string', 'file') and case['struct'] != 'dict' and case.get('full'):
+                    # full_output: the documented dictionary; the data under 'obsdata', the description as written
+                    if not isinstance(y, dict) or 'obsdata' not in y:
+                        probs.append(('violation', 'full-output', 'full_output=True did not return the documented dictionary'))
+                        return probs
+                    if case.get('desc') is not None and y.get('description') != case['desc']:
+                        probs.append(('violation', 'description-changed', '%r vs %r' % (y.get('description'), case['desc'])))
+                    y = y['obsdata']
+                    if isinstance(y, list) and len(y) == 1 and not isinstance(x, list):
+                        y = y[0]
+                    elif isinstance(y, list) and len(y) == 1 and isinstance(x, list):
+                        y = y[0]
             except Exception as e:
                 probs.append(('violation', 'roundtrip-exception:%s:%s' % (case['struct'], tr), '%s: %s' % (type(e).__name__, str(e)[:200])))
                 return probs
@@ -689,6 +701,8 @@ def gen_case(ctx):
     case = {'struct': k, 'seed': rng.getrandbits(28), 'indent': rng.choice([0, 1]), 'gz': rng.random() < 0.5,
             'transport': rng.choice(['string', 'string', 'file', 'file', 'pickle', 'csv', 'sql']), 'cov': rng.choice([None, None, 1, 2, 3]),
             'rw': rng.random() < 0.2, 'analyse': rng.random() < 0.3}
+    case['full'] = (case['seed'] % 3 == 0)
+    case['desc'] = [None, 'a description', '', 'line1\nline2 "quoted" {x: 1}', {'nested': [1, 2]}][case['seed'] % 5]
     if k == 'obs':
         case['tag'] = rng.choice(TAGS)
     elif k == 'list':
